@@ -1472,10 +1472,13 @@ func (e *Enc) execGo(x *ssa.Go) error {
 	}
 	if !underContract && e.fc != nil {
 		name := e.callName(c)
-		declared := false
-		for _, sp := range e.fc.Spawns {
-			declared = declared || matchCallee(name, sp)
+		// each `spawns` clause licenses one go statement on a function without contract; the name in the clause is
+		// documentation (matching by name would turn giving the goroutine's function literal a name into an alarm)
+		if e.spawnSites == nil {
+			e.spawnSites = map[ssa.Instruction]bool{}
 		}
+		e.spawnSites[x] = true
+		declared := len(e.spawnSites) <= len(e.fc.Spawns)
 		if !declared {
 			e.oblige("PROTO", "spawn", nil, Not(e.curGuard), "a goroutine is started on "+name+", which is neither under contract nor declared by a `spawns` clause: it would run concurrently with the rest of the run, verified nowhere and joined by nobody", x.Pos())
 		} else {
